@@ -596,3 +596,61 @@ def conversion_roles(ctx):
             else:
                 ctx.violated(rel, q, what, detail=norm(c)[:100], expected=f"_convert({norm(m)}, {norm(m.value)}.baseunits, ...)")
     ctx.floor("_convert call sites with (x.magnitude, y.baseunits)", n, 8)
+
+
+def published_tables_agree(ctx):
+    """The documentation publishes the unit tables as CSV files generated from settings.py (docs/source/_static/tables).
+    Both are data: the rows are compared as written - prefix name and power of ten, the prefixes a unit admits.  A row changed on one side only means the library no longer implements the published table."""
+    import csv
+    import re as _re
+    from ..unittables import unit_standard, unit_prefixes, SETTINGS
+    from ..literal import ClassRef
+    base = ctx.repo.root / "docs/source/_static/tables"
+    what = "the tables in settings.py are the published tables"
+    if not base.is_dir():
+        ctx.holds("-", "-", "published tables are not part of this tree (nothing to compare)")
+        return
+    cols, rows = unit_standard(ctx.repo)
+    pcols, prows = unit_prefixes(ctx.repo)
+    ix = {c: i for i, c in enumerate(cols)}
+    n = 0
+
+    def read(name):
+        p = base / name
+        if not p.is_file():
+            return []
+        ctx.repo.read_text(f"docs/source/_static/tables/{name}")
+        with open(p, newline="", encoding="utf-8") as f:
+            return list(csv.DictReader(f))
+    for r in read("prefixes.csv"):
+        s = (r.get("Symbol") or "").strip()
+        m = _re.search(r"10\^\{(-?\d+)\}", r.get("Magnitude") or "")
+        if s not in prows or not m:
+            if s and s not in prows:
+                ctx.violated(SETTINGS, "UNIT_PREFIXES", what, detail=f"published prefix {s!r} is not in the table")
+            continue
+        n += 1
+        want = 10.0 ** int(m.group(1))
+        if abs(prows[s][0] - want) <= 1e-12 * want:
+            ctx.holds(SETTINGS, "UNIT_PREFIXES", what, detail=f"{s} = 1e{m.group(1)}")
+        else:
+            ctx.violated(SETTINGS, "UNIT_PREFIXES", what, detail={s: prows[s][0]}, expected=f"1e{m.group(1)} (docs/source/_static/tables/prefixes.csv)")
+    for name in ("unit_base.csv", "unit_standard.csv", "unit_logarithmic.csv", "unit_temperature.csv", "constants.csv"):
+        for r in read(name):
+            syms = [x.strip() for x in (r.get("Symbol") or "").split(",") if x.strip()]
+            if len(syms) != 1 or syms[0] not in rows:
+                continue              # rows the generator merged by name are not taken apart here
+            s = syms[0]
+            row = rows[s]
+            if "Prefixes" in r:
+                cell = (r.get("Prefixes") or "").strip()
+                code = row[ix["prefixes"]] if len(row) > ix["prefixes"] else False
+                pub = True if cell == "all" else (sorted(x.strip() for x in cell.split(",") if x.strip()) if cell else False)
+                mine = True if code is True else (sorted(f"{p}{s}" for p in code) if isinstance(code, list) else False)
+                n += 1
+                if pub == mine:
+                    ctx.holds(SETTINGS, "UNIT_STANDARD", what, detail=f"{s}: prefixes {cell or 'none'}")
+                else:
+                    ctx.violated(SETTINGS, "UNIT_STANDARD", what, detail={s: {"admitted by the table": mine, "published": pub}}, expected=f"docs/source/_static/tables/{name}")
+            # (definition texts are not compared: `N*m2/C2` and `kg*m3/(s4*A2)` are two spellings of one definition)
+    ctx.floor("published table cells compared", n, 100)
